@@ -827,8 +827,78 @@ func c06CompensatingLengths(run *mon.Run, r *rand.Rand, g *thrGroup) {
 	run.Shape("compensating-share-lengths")
 }
 
+// c06InconsistentKeys: objects whose group key does not belong to the public key shares (the group key
+// of another key generation; a caller that replaces an entry of its key-share slice after construction and
+// lets that signer sign with the new key). Every share is added through VerifyAndAdd and is accepted as
+// valid for its signer - the object must still never hand out a signature that fails under its group key.
+func c06InconsistentKeys(run *mon.Run, r *rand.Rand, g *thrGroup) {
+	other, ok := newThrGroup(run, r, g.n, g.t, 0)
+	if !ok {
+		return
+	}
+	h := crypto.NewExpandMsgXOFKMAC128(g.tag)
+	for variant := 0; variant < 3; variant++ {
+		pks := append([]crypto.PublicKey{}, g.pks...)
+		gpk := g.gpk
+		signers := r.Perm(g.n)[:g.t+1]
+		swapped := -1
+		switch variant {
+		case 0:
+			gpk = other.gpk // group key of another dealing
+		case 1, 2:
+			swapped = signers[r.IntN(len(signers))]
+		}
+		rep := map[string]any{"n": g.n, "t": g.t, "variant": []string{"group-key-of-another-dealing", "key-share-replaced-after-construction", "key-share-replaced-before-construction"}[variant], "signers": signers}
+		if variant == 2 {
+			pks[swapped] = other.pks[swapped]
+		}
+		var sig crypto.Signature
+		var err error
+		var verdict bool
+		if run.Guard("stateful(inconsistent keys)", rep, func() {
+			ins, e := crypto.NewBLSThresholdSignatureInspector(gpk, pks, g.t, g.msg, g.tag)
+			if e != nil {
+				err = e
+				return
+			}
+			if variant == 1 {
+				pks[swapped] = other.pks[swapped] // the caller's slice, after construction
+			}
+			for _, s := range signers {
+				sh := crypto.Signature(g.share[s])
+				if s == swapped {
+					sh, _ = other.sks[s].Sign(g.msg, h)
+				}
+				_, _, _ = ins.VerifyAndAdd(s, sh)
+			}
+			for _, s := range r.Perm(g.n) { // whoever else is needed to reach the threshold
+				if ins.EnoughShares() {
+					break
+				}
+				_, _, _ = ins.VerifyAndAdd(s, g.share[s])
+			}
+			sig, err = ins.ThresholdSignature()
+			if err == nil {
+				verdict, _ = ins.VerifyThresholdSignature(sig)
+			}
+		}) {
+			continue
+		}
+		run.Eval(1)
+		run.Count("inconsistent-keys.cases", 1)
+		if err == nil {
+			okRef, _ := gpk.Verify(sig, g.msg, h)
+			if !verdict || !okRef {
+				run.Violate("C06:stateful-returns-invalid-signature:inconsistent-keys", fmt.Sprintf("ThresholdSignature() returned %x without an error although it fails under the object's group key (own VerifyThresholdSignature = %v, group key Verify = %v); every share had been accepted by VerifyAndAdd (%s)", []byte(sig), verdict, okRef, rep["variant"]), rep)
+			}
+		}
+		run.Shape(fmt.Sprintf("inconsistent-keys|%d|%v", variant, err == nil))
+	}
+}
+
 func c06InvalidShares(run *mon.Run, r *rand.Rand, g *thrGroup) {
 	c06CompensatingLengths(run, r, g)
+	c06InconsistentKeys(run, r, g)
 	signers := r.Perm(g.n)[:g.t+1]
 	kinds := []string{"other-signer", "random-g1", "plus-T3", "malformed", "wrong-length", "infinity", "empty"}
 	for pos := 0; pos <= g.t; pos++ {
